@@ -437,9 +437,21 @@ Definition focus_of (expect : list sx) : bytes :=
   | _ => bs "C00"
   end.
 
+(* "(for <prop> <expectation>)": the expectation speaks for the named property rather than for
+   the generator's focus *)
+Definition for_prop (x : sx) : option (bytes * sx) :=
+  match x with
+  | SL [t; SA p; e] => if sx_is "for" t then Some (p, e) else None
+  | _ => None
+  end.
+
 Definition focus_oracle (expect : list sx) (evs dels : list event) : list bytes :=
-  if forallb (expectation_ok evs dels) expect then []
-  else [focus_of expect].
+  let plain := filter (fun x => match for_prop x with None => true | Some _ => false end) expect in
+  (if forallb (expectation_ok evs dels) plain then [] else [focus_of expect])
+  ++ flat_map (fun x => match for_prop x with
+                        | Some (p, e) => if expectation_ok evs dels e then [] else [p]
+                        | None => []
+                        end) expect.
 
 (* ---------- reply syntax on the wire (C04) and known finding F22 ---------- *)
 
